@@ -22,6 +22,9 @@ fn check_world(case: &Case) -> Outcome {
     let mut labels = vec![];
     let mut handler_event_non_first = false;
     let mut denial_non_first = false;
+    let mut close_events = 0u32;
+    let mut close_event_non_first = false;
+    let mut close_events_several_fields = false;
     // when a shared oracle already failed the interpreter stopped early: completeness checks are skipped on the partial history
     let partial = !r.complete;
     for node in 0..nn {
@@ -68,6 +71,41 @@ fn check_world(case: &Case) -> Outcome {
                     return Outcome::fail("C58:handler-event-lost", json!({"node": node, "field": f, "tag": n, "conn": c}));
                 }
             }
+        }
+        // 2b. final events: whatever a field's handler yields from `poll_close` (recorded by the probe handler at the moment it
+        // returns it) is a handler event like any other and goes back to that field, exactly once, for that connection. The
+        // connection task drains `poll_close` to completion and forwards every item before it reports the connection closed
+        // (swarm/src/connection/pool/task.rs, both the commanded close and the error path), so at quiescence nothing can be
+        // in flight.
+        let mut close_fields: BTreeMap<u64, BTreeSet<u8>> = BTreeMap::new();
+        for x in r.log.iter().filter(|x| x.node == node) {
+            let Entry::HCloseEmit { conn, tag } = &x.entry else { continue };
+            let f = x.field;
+            close_events += 1;
+            close_fields.entry(*conn).or_default().insert(f);
+            if f > 0 {
+                close_event_non_first = true;
+            }
+            let arrived: Vec<(u8, u64, u8)> = r.log.iter().filter(|y| y.node == node).filter_map(|y| if let Entry::HandlerEvent { tag: t, conn: c, from_field, .. } = &y.entry { if t == tag { Some((y.field, *c, *from_field)) } else { None } } else { None }).collect();
+            if arrived.len() > 1 {
+                return Outcome::fail("C58:handler-event-duplicated", json!({"node": node, "tag": tag, "emitted_from": "poll_close", "arrived(field,conn,from_field)": arrived}));
+            }
+            match arrived.first() {
+                Some((af, ac, _)) => {
+                    if *af != f || ac != conn {
+                        return Outcome::fail("C58:handler-event-routed-to-wrong-field", json!({"node": node, "tag": tag, "emitted_from": "poll_close", "emitting_field": f, "conn": conn, "arrived_at_field": af, "arrived_for_conn": ac}));
+                    }
+                }
+                None => {
+                    if !partial {
+                        let same_conn: Vec<u8> = r.log.iter().filter(|y| y.node == node).filter_map(|y| if let Entry::HCloseEmit { conn: c, .. } = &y.entry { if c == conn { Some(y.field) } else { None } } else { None }).collect();
+                        return Outcome::fail("C58:close-time-handler-event-lost", json!({"node": node, "field": f, "tag": tag, "conn": conn, "fields_that_flushed_on_this_connection": same_conn}));
+                    }
+                }
+            }
+        }
+        if close_fields.values().any(|s| s.len() >= 2) {
+            close_events_several_fields = true;
         }
         // 3. denied iff some field denies
         let mut asked: BTreeMap<(u64, u8), Vec<(u8, bool)>> = BTreeMap::new();
@@ -132,6 +170,15 @@ fn check_world(case: &Case) -> Outcome {
     }
     if denial_non_first {
         labels.push("denial_non_first_field");
+    }
+    if close_events > 0 {
+        labels.push("close_time_event");
+    }
+    if close_event_non_first {
+        labels.push("close_time_event_non_first_field");
+    }
+    if close_events_several_fields {
+        labels.push("close_time_events_from_several_fields_of_one_connection");
     }
     Outcome::pass_l(handler_event_non_first && denial_non_first, labels)
 }
@@ -231,19 +278,37 @@ pub fn run(ctx: &mut Ctx) {
     ctx.assume("derived structs use the same probe type for every field, so a mis-routing in the generated code would still type-check");
     ctx.check::<Case>(
         "world",
-        "world programs over 1..3 swarms whose behaviour is #[derive(NetworkBehaviour)] over 2..3 probes: scripted denials, handler-emitted events tagged with the emitting field, closes; oracle: identical FromSwarm sequence at every field, handler events arrive at the producing field only, fields consulted in order until one denies, denied iff some field denies; non-trivial = a handler event from a non-first field and a denial by a non-first field; distinct by case hash",
+        "world programs over 1..3 swarms whose behaviour is #[derive(NetworkBehaviour)] over 2..3 probes: scripted denials, handler-emitted events tagged with the emitting field (a quarter of them held back and yielded from poll_close at connection close, half of those for every field's handler of the connection at once), closes; oracle: identical FromSwarm sequence at every field, handler events arrive at the producing field only, every event a handler yielded from poll_close arrives exactly once at its field for its connection, fields consulted in order until one denies, denied iff some field denies; non-trivial = a handler event from a non-first field and a denial by a non-first field; distinct by case hash",
         ctx.n(30_000, 900_000),
         &|| {
             life::case_strategy(3, 2..=3, 6, 50, Weights { notify: 12, connect: 8, ..Weights::default() })
                 .prop_map(|mut c| {
-                    // most notifications ask the handler to emit an event back to its behaviour
-                    for op in c.ops.iter_mut() {
-                        if let life::Op::Notify { cmd, pick, .. } = op {
-                            if *pick % 4 != 0 {
-                                *cmd = simswarm::probe::HCmd::Emit(0);
+                    // most notifications ask the handler to emit an event back to its behaviour: at once (`Emit`), or held back
+                    // until the connection closes and flushed from `poll_close` (`EmitOnClose`); half of the latter are sent
+                    // to the handlers of the other fields on the same connection as well, so that several fields' handlers
+                    // have final events at the same time
+                    let mut ops = Vec::with_capacity(c.ops.len() + 8);
+                    for mut op in std::mem::take(&mut c.ops) {
+                        let mut more = vec![];
+                        if let life::Op::Notify { n, field, cmd, pick, any } = &mut op {
+                            match *pick % 4 {
+                                0 => {}
+                                1 => {
+                                    *cmd = simswarm::probe::HCmd::EmitOnClose(0);
+                                    if (*pick / 4) % 2 == 0 {
+                                        *any = false;
+                                        for d in 1..c.fields.clamp(2, 3) {
+                                            more.push(life::Op::Notify { n: *n, field: (*field % c.fields.clamp(2, 3)) + d, pick: *pick, any: false, cmd: simswarm::probe::HCmd::EmitOnClose(0) });
+                                        }
+                                    }
+                                }
+                                _ => *cmd = simswarm::probe::HCmd::Emit(0),
                             }
                         }
+                        ops.push(op);
+                        ops.extend(more);
                     }
+                    c.ops = ops;
                     c
                 })
                 .boxed()
